@@ -412,6 +412,10 @@ pub fn run_ord<C: OrdColl>(case: &Case, rc: &RunCfg) -> Outcome {
         }
         r.out.ops_run += 1;
     }
+    if r.out.failure.is_none() && r.out.blocked.is_none() && !r.dense && !case.ops.is_empty() {
+        let n = case.ops.len();
+        r.final_battery(n);
+    }
     if r.out.failure.is_none() && r.out.blocked.is_none() && rc.want_state {
         r.out.state_key = r.state_key();
     }
@@ -652,6 +656,35 @@ impl<'a, C: OrdColl> OrdRun<'a, C> {
         format!("(key {:?}, payload {:?})", obs.0, obs.1)
     }
 
+    /// probes worth looking at: the whole universe (+-1) when it is small, otherwise every stored
+    /// key, both its neighbours and the ends
+    fn probe_set(&self) -> Vec<i32> {
+        if self.u <= 512 {
+            return (-1..=self.u).collect();
+        }
+        let mut v: Vec<i32> = vec![-1, 0, self.u - 1, self.u];
+        for k in self.model.keys().take(1500) {
+            v.push(*k - 1);
+            v.push(*k);
+            v.push(*k + 1);
+        }
+        v.sort();
+        v.dedup();
+        v
+    }
+
+    /// the battery once more at the end of every case, whatever the size of the universe
+    fn final_battery(&mut self, i: usize) -> bool {
+        if self.rc.inject.is_some() || self.rc.inject_all {
+            return true;
+        }
+        let was = self.dense;
+        self.dense = true;
+        let ok = self.dense_battery(i);
+        self.dense = was;
+        ok
+    }
+
     /// "in every reachable state and for every probe / handle": after a mutating operation run the
     /// full observation battery of the observed property (small universes only)
     fn dense_battery(&mut self, i: usize) -> bool {
@@ -664,7 +697,7 @@ impl<'a, C: OrdColl> OrdRun<'a, C> {
         }
         let list = !C::IS_TREE;
         if (self.rc.obs(8) && !list) || (self.rc.obs(13) && list) {
-            for p in -1..=self.u {
+            for p in self.probe_set() {
                 for fam in [0u8, 2u8] {
                     if !self.hread(i, p, fam) {
                         return false;
@@ -704,8 +737,7 @@ impl<'a, C: OrdColl> OrdRun<'a, C> {
             self.out.class("get_present");
         }
         self.out.class("get_absent");
-        let umax = self.u.min(512);
-        for k in -1..=umax {
+        for k in self.probe_set() {
             let coll = &self.coll;
             let (r, _, _) = lib_call(None, crate::run::INTERNAL_BUDGET, false, || coll.get(k));
             let got = match r {
